@@ -105,7 +105,7 @@ def gate_cases(ctx, world, n):
     lits, cj = [], []
     for _ in range(n):
         f, lit, j = outcome(rng)
-        cond = rng.choice(["f()"] * 8 + [None, "", "  ", "\t"])
+        cond = rng.choice(["f()"] * 8 + [None, "", "  ", "\t", "\x1f", "\u00a0 ", "\u2003\t\x85", "\u3000\n", " \x1c\x0b"])     # blank = str.strip() is empty
         action = LocationAction("tp", cond, {"fire_count": "-1", "fire_period": "0"}, LocationAction.ActionType.Log)
         frame = e2.mk_frame("/app/m.py", "f", 3, {"f": f})
         tc = TriggerContext(world.cfg, world.push, frame, "line", None)
